@@ -294,6 +294,11 @@ def run(p: Program, rep: Report, tier: str) -> None:
         node, f = col.nodes[ctor[0].tag]
         ex = kw.get("expires", ctor[0].b[2] if len(ctor[0].b) > 2 else NONE)
         expires_given = (("cmp", "Is", ("param", "expires"), NONE), False) in pa.facts
+        if ex == NONE:
+            # build-then-patch: `cookie = Cookie(...)` followed by `cookie.expires = <datetime>` on the path
+            late = [e for e in pa.events if e.kind == "store" and e.a[0] == "attr" and e.a[2] == "expires" and e.a[1] != ("param", "self")]
+            if late:
+                ex = late[-1].b
         if expires_given:
             n_exp += 1
             utc = False
